@@ -72,7 +72,16 @@ fn after(r: &mut Ref, who: usize, frame: f64, pend: [usize; 2], pulls: usize, ta
 /// Run one history (bit i of `hist`: 0 = A.next(), 1 = B.next()) on a fresh fork.
 /// Steps that would push the lead beyond the capacity are not part of the
 /// property's domain: the history ends there. Returns (steps run, final positions).
+/// a panic anywhere in the fork under test (an overflow check, a debug assertion) is a violation: the
+/// property promises frames for every in-boundary interleaving
 fn run_history(cap: usize, start: usize, mode: Mode, hist: u128, len: usize) -> Result<(usize, [usize; 2]), (String, String)> {
+    match common::catch(|| run_history_inner(cap, start, mode, hist, len)) {
+        Ok(r) => r,
+        Err(p) => Err(("fork.panic".into(), format!("capacity {cap}, ring start {start}, {mode:?}, interleaving of {len} pulls: panicked: {p}"))),
+    }
+}
+
+fn run_history_inner(cap: usize, start: usize, mode: Mode, hist: u128, len: usize) -> Result<(usize, [usize; 2]), (String, String)> {
     let (src, c) = source();
     let data = vec![-1.0f64; cap];
     let ring = Bounded::from_raw_parts(start, 0, data);
@@ -278,6 +287,7 @@ impl Model for ForkModel {
 }
 
 fn main() {
+    let _final_guard = common::FinalGuard::new();
     let ctx: &'static Ctx = Ctx::leak("C12", "release");
     if let Some(v) = ctx.replay_case() {
         let _guard_scope = guard::scoped(&v.to_string());
